@@ -483,6 +483,7 @@ class Doist(tyming.Tymist):
                 deeds.rotate(-(i + 1))  # restore enter order: rerun deeds first
                 break
 
+        failure = None  # first exception raised by a dog's own cease or exit context
         while(deeds):  # .close each remaining dog in deeds in reverse order
             dog, retime, doer = deeds.pop()  # pop it off in reverse (right side)
             if not dog:  # marker deed
@@ -491,12 +492,17 @@ class Doist(tyming.Tymist):
                 done = dog.close()  # force GeneratorExit. Maybe log exit tock tyme
             except StopIteration:
                 pass  # Hmm? Not supposed to happen!
+            except BaseException as ex:  # keep closing the rest so every dog exits
+                if failure is None:
+                    failure = ex
             else:  # set done state forced close
                 try:  # not bound method generator but doer instance or function
                     doer.done = done if done is not None else doer.done
                 except AttributeError:  # when using bound method generator
                     # writing to doer.__func__.done read from doer.done
                     doer.__func__.done = done if done is not None else doer.done
+        if failure is not None:  # re-raise once all remaining dogs are closed
+            raise failure
 
 
     def extend(self, doers):
@@ -1379,6 +1385,7 @@ class DoDoer(Doer):
                 deeds.rotate(-(i + 1))  # restore enter order: rerun deeds first
                 break
 
+        failure = None  # first exception raised by a dog's own cease or exit context
         while(deeds):  # .close each remaining dog in deeds in reverse order
             dog, retime, doer = deeds.pop()  # pop it off in reverse (right side)
             if not dog:  # marker deed
@@ -1387,12 +1394,17 @@ class DoDoer(Doer):
                 done = dog.close()  # force GeneratorExit returns None if already closed or Gen Return value
             except StopIteration:
                 pass  # Hmm? Not supposed to happen!
+            except BaseException as ex:  # keep closing the rest so every dog exits
+                if failure is None:
+                    failure = ex
             else:  # set done state forced exit
                 try:  # not bound method generator but doer instance or function
                     doer.done = done if done is not None else doer.done
                 except AttributeError:  # when using bound method generator
                     # writing to doer.__func__.done read from doer.done
                     doer.__func__.done = done if done is not None else doer.done
+        if failure is not None:  # re-raise once all remaining dogs are closed
+            raise failure
 
 
     def extend(self, doers):
